@@ -53,25 +53,33 @@ static int cr_reading (void)
 {
   return MHD_CONNECTION_INIT == rcon.state || MHD_CONNECTION_REQ_LINE_RECEIVING == rcon.state
          || MHD_CONNECTION_REQ_HEADERS_RECEIVING == rcon.state || MHD_CONNECTION_BODY_RECEIVING == rcon.state
-         || MHD_CONNECTION_FOOTERS_RECEIVING == rcon.state;
+         || MHD_CONNECTION_FOOTERS_RECEIVING == rcon.state || MHD_CONNECTION_CONTINUE_SENDING == rcon.state;
 }
 
 /* scripted access handler: take pattern (bytes taken per call, indexed by the call number within the request);
    the final call (no upload data, not the first call) queues an empty reply */
 static int cr_fill = -1;   /* byte written behind the fill level before every idle call (-1: leave the stale bytes) */
-static size_t cr_pat[64]; static size_t cr_npat; static size_t cr_calls; static int cr_marker; static int cr_cookie_stop;
+static size_t cr_pat[64]; static size_t cr_npat; static size_t cr_calls;   /* pattern entry (size_t) -1 = MHD_NO */
+static char cr_first = 'c', cr_final = 'r';   /* first call: c go on / r early reply / n MHD_NO; final call: r reply / n MHD_NO */ static int cr_marker; static int cr_cookie_stop;
 static enum MHD_Result cr_handler (void *cls, struct MHD_Connection *c, const char *url, const char *method, const char *version,
                                    const char *upload_data, size_t *upload_data_size, void **con_cls)
 {
   (void) cls; (void) url; (void) method; (void) version; (void) upload_data;
-  if (NULL == *con_cls) { *con_cls = &cr_marker; cr_calls = 1; return MHD_YES; }
-  if (0 != *upload_data_size)
+  if (NULL == *con_cls)
+  {
+    *con_cls = &cr_marker; cr_calls = 1;
+    if ('n' == cr_first) return MHD_NO;
+    if ('c' == cr_first) return MHD_YES;
+  }
+  else if (0 != *upload_data_size)
   {
     size_t n = *upload_data_size, t = (0 == cr_npat) ? n : cr_pat[cr_calls % cr_npat];
+    if ((size_t) -1 == t && 0 != cr_npat) return MHD_NO;
     if (t > n) t = n;
     *upload_data_size = n - t; cr_calls++;
     return MHD_YES;
   }
+  else if ('n' == cr_final) return MHD_NO;
   {
     struct MHD_Response *r = MHD_create_response_from_buffer_static (0, "");
     enum MHD_Result q = MHD_queue_response (c, MHD_HTTP_OK, r);
@@ -91,6 +99,8 @@ static void cr_idle (void)
       && MHD_CONNECTION_CLOSED != rcon.state)
     memset (rcon.read_buffer + rcon.read_buffer_offset, cr_fill, rcon.read_buffer_size - rcon.read_buffer_offset);
   rcon.in_idle = true;   /* as MHD_connection_handle_idle does (MHD_queue_response must not re-enter it) */
+  if (MHD_CONNECTION_CONTINUE_SENDING == rcon.state)   /* the interim reply is taken as written by now */
+    rcon.continue_message_write_offset = MHD_STATICSTR_LEN_ (HTTP_100_CONTINUE);
   while (! cr_cookie_stop)
   {
     switch (rcon.state)
@@ -114,8 +124,20 @@ static void cr_idle (void)
     case MHD_CONNECTION_HEADERS_PROCESSED:
       call_connection_handler (&rcon);
       if (MHD_CONNECTION_HEADERS_PROCESSED != rcon.state) continue;
-      /* "100 Continue" is not part of this engine (the generated requests carry no Expect field) */
+      if ( (NULL == rcon.rp.response) && need_100_continue (&rcon) && (0 == rcon.read_buffer_offset) )
+      { rcon.state = MHD_CONNECTION_CONTINUE_SENDING; break; }
+      if ( (NULL != rcon.rp.response) && (0 != rcon.rq.remaining_upload_size) )
+      { rcon.rq.remaining_upload_size = 0; rcon.discard_request = true; }
       rcon.state = (0 == rcon.rq.remaining_upload_size) ? MHD_CONNECTION_FULL_REQ_RECEIVED : MHD_CONNECTION_BODY_RECEIVING;
+      continue;
+    case MHD_CONNECTION_CONTINUE_SENDING:
+      if (rcon.continue_message_write_offset == MHD_STATICSTR_LEN_ (HTTP_100_CONTINUE))
+      { rcon.state = MHD_CONNECTION_BODY_RECEIVING; continue; }
+      break;
+    case MHD_CONNECTION_START_REPLY:   /* a reply queued by the first handler call, taken as sent */
+      connection_switch_from_recv_to_send (&rcon);
+      rcon.keepalive = keepalive_possible (&rcon);
+      connection_reset (&rcon, MHD_CONN_USE_KEEPALIVE == rcon.keepalive && ! rcon.read_closed && ! rcon.discard_request);
       continue;
     case MHD_CONNECTION_BODY_RECEIVING:
       if (0 != rcon.read_buffer_offset)
@@ -168,6 +190,7 @@ static void cr_show (void)
   case MHD_CONNECTION_REQ_HEADERS_RECEIVING: ph = "hdrs"; break;
   case MHD_CONNECTION_HEADERS_RECEIVED: ph = "done"; break;
   case MHD_CONNECTION_BODY_RECEIVING: ph = "body"; break;
+  case MHD_CONNECTION_CONTINUE_SENDING: ph = "c100"; break;
   case MHD_CONNECTION_FOOTERS_RECEIVING: ph = "foot"; break;
   default: break;
   }
@@ -175,7 +198,8 @@ static void cr_show (void)
   {
     struct MemoryPoolView *pv = (struct MemoryPoolView *) rcon.pool;
     size_t ne = 0; struct MHD_HTTP_Req_Header *h;
-    if (MHD_CONNECTION_BODY_RECEIVING != rcon.state && MHD_CONNECTION_FOOTERS_RECEIVING != rcon.state)
+    if (MHD_CONNECTION_BODY_RECEIVING != rcon.state && MHD_CONNECTION_FOOTERS_RECEIVING != rcon.state
+        && MHD_CONNECTION_CONTINUE_SENDING != rcon.state)
       for (h = rcon.rq.headers_received; NULL != h; h = h->next) ne++;
     printf ("ph=%s ", ph);
     if (NULL == rcon.read_buffer) printf ("rb=null "); else printf ("rb=%zu ", (size_t) ((uint8_t *) rcon.read_buffer - pv->memory));
@@ -221,7 +245,7 @@ int main (void)
       printf ("ok "); st (); printf (" size=%zu\n", pv->size);
       continue;
     }
-    if (!strcmp (op, "crinit") && (l.n == 4 || l.n == 5))
+    if (!strcmp (op, "crinit") && (l.n >= 4 && l.n <= 6))
     { /* crinit <pool_size> <pool_increment> <client_discipline> [take pattern t0,t1,...] */
       char *endp; long lvl = strtol (l.w[3], &endp, 10);
       if (!(lp_u64 (l.w[1], &a) && lp_u64 (l.w[2], &b)) || a < 64 || a >= ((uint64_t) 1 << 40) || b >= ((uint64_t) 1 << 40)
@@ -230,12 +254,18 @@ int main (void)
       memset (&rdmn, 0, sizeof(rdmn)); memset (&rcon, 0, sizeof(rcon));
       rdmn.pool_size = (size_t) a; rdmn.pool_increment = (size_t) b; rdmn.client_discipline = (int) lvl;
       rdmn.unescape_callback = &h_unescape; rdmn.default_handler = &cr_handler;
-      cr_npat = 0; cr_calls = 0; cr_cookie_stop = 0;
-      if (5 == l.n)
+      cr_npat = 0; cr_calls = 0; cr_cookie_stop = 0; cr_first = 'c'; cr_final = 'r';
+      if (5 <= l.n && strcmp (l.w[4], "-"))
       {
         char *q = l.w[4];
-        while (*q && cr_npat < 64) { cr_pat[cr_npat++] = (size_t) strtoull (q, &q, 10); if (',' == *q) q++; else break; }
+        while (*q && cr_npat < 64)
+        {
+          if ('n' == *q) { cr_pat[cr_npat++] = (size_t) -1; q++; }
+          else cr_pat[cr_npat++] = (size_t) strtoull (q, &q, 10);
+          if (',' == *q) q++; else break;
+        }
       }
+      if (6 == l.n) { cr_first = l.w[5][0]; cr_final = l.w[5][0] ? l.w[5][1] : 'r'; }
       rcon.daemon = &rdmn; rcon.socket_fd = MHD_INVALID_SOCKET; rcon.state = MHD_CONNECTION_INIT;
       rcon.pool = MHD_pool_create (rdmn.pool_size);
       memset (((struct MemoryPoolView *) rcon.pool)->memory, 0, ((struct MemoryPoolView *) rcon.pool)->size);
